@@ -31,17 +31,52 @@ static int tcp_pair(int sv[2]) {
     return 0;
 }
 
+/* srvconn: the proxy as stream CLIENT. A listening socket stands in for the home server; the real tcpconnect connects to it, the
+   real tcpclientrd reads what the scripted peer writes; every reconnect (closeh / timeouth -> tcpconnect) lands on the listener again */
+static int h_cl_mode, h_cl_listener = -1, h_cl_fd = -1;
+extern void h_clock_set(time_t t);
+extern time_t h_clock(void);
+static unsigned h_tcp_sleep(unsigned n) {
+    if (h_cl_mode) { /* the pacing of connection attempts: the virtual clock moves on, and the wait is part of the outcome */
+        char tmp[24];
+        snprintf(tmp, sizeof(tmp), "%u", n);
+        h_clock_set(h_clock() + n);
+        h_event("slept", tmp, NULL, -1);
+        return 0;
+    }
+    return h_sleep(n);
+}
 static void *h_tcp_conn_writer; /* tcpconn: the writer thread of the connection being served */
 int h_writer_run(void *h);
 static int h_tcp_poll(struct pollfd *fds, nfds_t n, int timeout) {
+    if (h_cl_mode) { /* a connection waiting on the listener: the proxy has (re-)connected; its other end is ours from now on */
+        struct pollfd lf = {h_cl_listener, POLLIN, 0};
+        while (poll(&lf, 1, 0) > 0) {
+            int one = 1;
+            if (h_peer >= 0)
+                close(h_peer);
+            h_peer = accept(h_cl_listener, NULL, NULL);
+            if (h_peer < 0)
+                abort();
+            setsockopt(h_peer, IPPROTO_TCP, TCP_NODELAY, &one, sizeof(one));
+            if (h_cl_fd >= 0)
+                h_event("reconnected", NULL, NULL, -1);
+            h_cl_fd = fds[0].fd;
+        }
+    }
     for (;;) {
         if (h_tcp_conn_writer) /* the reader is about to wait: the writer gets the processor first (deterministic hand-over) */
             h_writer_run(h_tcp_conn_writer);
         int r = poll(fds, n, 0);
         if (r != 0)
             return r;
-        if (h_pos >= h_nscript) /* script exhausted: nothing more will ever arrive */
+        if (h_pos >= h_nscript) { /* script exhausted: nothing more will ever arrive */
+            if (h_cl_mode) {
+                h_thread_park_forever(); /* the reader stays blocked on its connection; the episode is over - until the next one */
+                continue;
+            }
             return timeout < 0 ? -1 : 0;
+        }
         {
             char *ev = h_script[h_pos++];
             if (ev[0] == 'w' || ev[0] == 'W') {
@@ -100,12 +135,20 @@ static int h_tcp_join(void) {
     h_tcp_conn_writer = NULL;
     return 0;
 }
+#include "radsecproxy.h"
+extern int h_replyh_traced(struct server *s, unsigned char *buf, int len);
 #define poll h_tcp_poll
+#undef sleep
+#define sleep(n) h_tcp_sleep(n)
+#define replyh(s, b, l) h_replyh_traced((s), (b), (l))
 #define write(fd, b, l) h_tcp_write((fd), (b), (l))
 #define pthread_create(t, a, f, x) h_tcp_pthread_create((t), (a), (f), (x))
 #define pthread_join(t, r) h_tcp_join()
 #define pthread_exit(v) h_thread_exit(v)
 #include "tcp.c"
+#undef replyh
+#undef sleep
+#define sleep(n) h_sleep(n)
 #undef poll
 #undef write
 #undef pthread_create
@@ -155,6 +198,98 @@ int h_tcp_serve(const char *src, char **script, int nscript) {
         close(h_peer);
     h_peer = -1;
     return h_pos;
+}
+
+/* srvconn: the connection of TCP server `server` is brought up by the real tcpconnect (first episode), then the real tcpclientrd reads
+   the scripted peer (an end of stream is appended to the script, so that every episode ends on a fresh connection with nothing pending).
+   The reader thread and its connection stay between episodes: a later srvconn for the same server hands the blocked reader a new
+   script. `pd` is the protocol table the server's conf points at: it has the real connecter for the time of an episode. */
+static struct h_cl_ent {
+    struct server *srv;
+    int listener, peer, fd;
+    void *thread;
+} h_cl_tab[8];
+static int h_cl_n;
+void h_tcp_client_reset(void) {
+    for (int i = 0; i < h_cl_n; i++) {
+        if (h_cl_tab[i].listener >= 0)
+            close(h_cl_tab[i].listener);
+        if (h_cl_tab[i].peer >= 0)
+            close(h_cl_tab[i].peer);
+    }
+    h_cl_n = 0;
+}
+int h_tcp_client(struct server *server, struct protodefs *pd, char **script, int nscript) {
+    static char *full[260];
+    static char fin[] = "e";
+    struct h_cl_ent *e = NULL;
+    int i;
+    if (nscript > 256)
+        return -1;
+    for (i = 0; i < h_cl_n; i++)
+        if (h_cl_tab[i].srv == server)
+            e = &h_cl_tab[i];
+    for (i = 0; i < nscript; i++)
+        full[i] = script[i];
+    full[nscript] = fin;
+    h_script = full;
+    h_nscript = nscript + 1;
+    h_pos = 0;
+    pd->connecter = tcpconnect;
+    if (!e) {
+        struct hostportres *hp = (struct hostportres *)list_first(server->conf->hostports)->data;
+        struct sockaddr_in a;
+        socklen_t al = sizeof(a);
+        pthread_t th;
+        int l, one = 1;
+        if (h_cl_n == 8 || !hp->addrinfo || hp->addrinfo->ai_family != AF_INET) {
+            pd->connecter = NULL;
+            return -1;
+        }
+        l = socket(AF_INET, SOCK_STREAM, 0);
+        memset(&a, 0, sizeof(a));
+        a.sin_family = AF_INET;
+        a.sin_addr.s_addr = htonl(INADDR_LOOPBACK);
+        setsockopt(l, SOL_SOCKET, SO_REUSEADDR, &one, sizeof(one));
+        if (l < 0 || bind(l, (struct sockaddr *)&a, sizeof(a)) || listen(l, 8) || getsockname(l, (struct sockaddr *)&a, &al)) {
+            pd->connecter = NULL;
+            return -1;
+        }
+        /* the home server "is" at the address the configuration resolved to; only the way there leads to our listener */
+        *(struct sockaddr_in *)hp->addrinfo->ai_addr = a;
+        e = &h_cl_tab[h_cl_n++];
+        e->srv = server;
+        e->listener = l;
+        e->peer = -1;
+        e->fd = -1;
+        h_cl_listener = l;
+        h_cl_fd = -1;
+        h_peer = -1;
+        h_cl_mode = 1;
+        if (!srcres)
+            tcpsetsrcres(); /* the wildcard source address connections are made from */
+        if (!tcpconnect(server, 0, 0)) {
+            pd->connecter = NULL;
+            h_cl_mode = 0;
+            return -1;
+        }
+        h_pthread_create(&th, NULL, tcpclientrd, server); /* returns when the reader is blocked on a fresh connection, script used up */
+        e->thread = h_thread_find(server);
+        h_thread_hide(e->thread); /* "the thread of this server" remains its writer */
+    } else {
+        h_cl_listener = e->listener;
+        h_cl_fd = e->fd;
+        h_peer = e->peer;
+        h_cl_mode = 1;
+        h_thread_step(e->thread);
+    }
+    e->peer = h_peer;
+    e->fd = h_cl_fd;
+    h_peer = -1;
+    h_cl_listener = -1;
+    h_cl_mode = 0;
+    pd->connecter = NULL;
+    return 0;
 }
 
 /* tcpstream client|server <timeout> <event>..   events: w:<hex> | t | e
